@@ -161,14 +161,30 @@ func (s *Setup) CodecCases(e *hx.Env, maxBytes int, valuesPer, mutPer int, malfo
 				continue
 			}
 			// one over-limit value: some limited node gets limit+1 elements
+			// (for a type whose obligation broke: every limited node in turn, and larger encodings are allowed)
 			probe := NewGen(e.Rng.Fork(), 200)
 			probe.Value(t)
 			if n := probe.Nodes(); n > 0 {
-				g := NewGen(e.Rng.Fork(), 200)
-				g.Over = e.Rng.Intn(n)
-				enc := g.Value(t)
-				if g.DidOver && len(enc.B) <= maxBytes+2000 {
-					s.AddCase(e, ent, pi, enc.B, "mutated/over_limit", false)
+				nodes := []int{e.Rng.Intn(n)}
+				capBytes := maxBytes + 2000
+				if s.Focus[ent.Name] {
+					nodes = nil
+					for j := 0; j < n && j < 4; j++ {
+						nodes = append(nodes, j)
+					}
+					capBytes = 30000
+				}
+				for _, node := range nodes {
+					g := NewGen(e.Rng.Fork(), 200)
+					g.Over = node
+					g.OverCap = capBytes
+					if s.Focus[ent.Name] {
+						g.Mode = 1 // everything else empty: the encoding stays as small as the over-limit node allows
+					}
+					enc := g.Value(t)
+					if g.DidOver && len(enc.B) <= capBytes {
+						s.AddCase(e, ent, pi, enc.B, "mutated/over_limit", false)
+					}
 				}
 			}
 		}
